@@ -286,7 +286,7 @@ var c09Amounts = []string{"0", "1", "2", "11", "12", "13", "23", "24", "25", "29
 
 func c09Gen(s Src) c09Case {
 	if s.Prob(8) {
-		us := []string{"mg", "kg", "day", "days", "year", "1", "s", "second"}
+		us := []string{"mg", "kg", "day", "days", "year", "1", "s", "second", "Mg", "MG", "S", "Day"}
 		return c09Case{Kind: "qty", Op: pickOne(s, []string{"+", "-", "<", "=", ">"}), Amount: pickOne(s, c09Amounts), Unit: pickOne(s, us), Amt2: pickOne(s, c09Amounts), Unit2: pickOne(s, us)}
 	}
 	kind, start := c09GenStart(s)
